@@ -105,6 +105,18 @@ class Report:
     def error(self, msg):
         self.errors.append(msg)
 
+    def unexpected(self, ctx, msg, timeout_ms=15000):
+        """an exception / result that must not occur on a feasible path: only an
+        error if the path condition is really satisfiable (paths entered through
+        an 'unknown' feasibility answer may be infeasible)."""
+        r, dt, m = symx.check_sat(ctx, (), timeout_ms)
+        self.solver_time += dt
+        if r == 'sat':
+            self.errors.append(msg)
+        elif r == 'unknown':
+            self.inconclusive.append('path-feasibility-unknown: ' + msg[:80])
+        return r
+
     def incomplete_note(self, msg):
         self.incomplete.append(msg)
 
